@@ -49,7 +49,7 @@ def run(ctx):
         raise vf.Inconclusive("Gen_Route produced no vectors:\n" + vf.tail(out, 30))
     trr = ctx.path("route.ndjson")
     ctx.run_mvh(["route", "-vectors", ctx.path("routevec.ndjson"), "-out", trr, "-seed", ctx.seed, "-tier", ctx.tier])
-    fixes = [r for r in vf.read_ndjson(trr) if r["e"] == "FIX" and r["var"] == "signed" and r["key"]]
+    fixes = [r for r in vf.read_ndjson(trr) if r["e"] == "FIX" and r["var"].startswith("signed") and r["key"]]
     if not fixes:
         raise vf.Inconclusive("no re-keying record was produced")
     pfix = ctx.path("c06fix.ndjson")
